@@ -711,6 +711,9 @@ class Interp:
                 r = h(self, st, v, fr)
                 if r is not None:
                     return r
+            if v.op == 'cmp' and v.val in ('==', '!=') and v.args[0].op != 'const' and v.args[1].op != 'const' and concrete(v.args[0]) is None and concrete(v.args[1]) is None:
+                # two different symbolic values compared for exact equality (a new input against a remembered one), nobody explores the arms: generic position, they differ
+                return v.val == '!='
             raise AnalysisError(f'{fr.mod.where(st)}: branch on a symbolic condition `{ast.unparse(getattr(st, "test", st))[:80]}`')
         if isinstance(v, Opaque):
             h = self.hooks.get('branch')
@@ -1958,6 +1961,15 @@ class Interp:
                     return False          # an array is none of the scalar types
             if len(args) == 2 and args[0] is None:
                 return False              # (NoneType is never among the types the repository tests for)
+            if len(args) == 2 and not getattr(self, 'array_mode', False) and isinstance(args[0], (Node, Fraction)) and not isinstance(args[0], bool):
+                # scalar mode: a symbolic number stands for a Python / numpy float
+                names = [str(getattr(t_, 'name', t_)).split('.')[-1] for t_ in (args[1] if isinstance(args[1], (tuple, list)) else [args[1]])]
+                if names and all(n_ in ('float', 'int', 'complex', 'bool', 'str', 'float64', 'floating', 'integer', 'Number', 'Real', 'ndarray', 'list', 'tuple', 'dict') for n_ in names):
+                    return any(n_ in ('float', 'float64', 'floating', 'Number', 'Real') for n_ in names)
+            if len(args) == 2 and isinstance(args[0], int) and not isinstance(args[0], bool):
+                names = [str(getattr(t_, 'name', t_)).split('.')[-1] for t_ in (args[1] if isinstance(args[1], (tuple, list)) else [args[1]])]
+                if names and all(n_ in ('float', 'int', 'complex', 'bool', 'str', 'float64', 'floating', 'integer', 'Number', 'Real', 'ndarray', 'list', 'tuple', 'dict') for n_ in names):
+                    return any(n_ in ('int', 'integer', 'Number', 'Real') for n_ in names)
             if len(args) == 2 and isinstance(args[0], Obj) and getattr(args[0], 'native', False) and args[0].cls is not None:
                 cands = args[1] if isinstance(args[1], (tuple, list)) and not (len(args[1]) == 3 and args[1][0] == 'class') else [args[1]]
                 if all(isinstance(c_, tuple) and len(c_) == 3 and c_[0] == 'class' for c_ in cands):
